@@ -99,7 +99,7 @@ func init() {
 		},
 		DriverOp: "applyInclude",
 		Judge:    judgeModel,
-		Timeout:  20 * time.Second,
+		Timeout:  60 * time.Second,
 	})
 	core.Register("c06.applySource", &core.CheckDef{
 		Real: func(raw json.RawMessage) any {
@@ -111,7 +111,7 @@ func init() {
 		},
 		DriverOp: "applyInclude",
 		Judge:    judgeSource,
-		Timeout:  20 * time.Second,
+		Timeout:  60 * time.Second,
 	})
 	core.Register("c06.paste", &core.CheckDef{
 		Real: func(raw json.RawMessage) any {
@@ -122,7 +122,7 @@ func init() {
 			return c06lib.RealPaste(a)
 		},
 		Judge:   judgePaste,
-		Timeout: 20 * time.Second,
+		Timeout: 60 * time.Second,
 	})
 	core.RegisterProp("C06", runC06)
 }
